@@ -22,6 +22,10 @@ Follow-up lines work on the state (a history of one CVFolds object and the datas
   wsets / wstarts              the same two constructors on the weighted dataset (cur.dataset(), weights); state unchanged
   again fn k bs seed a b       apply construction function number fn to the dataset variable (which the previous call reorganised)
   nest w i fn k bs seed a b    set := cur.training(i) (w = 0) or cur.validation(i) (w = 1), made independent; then as `again`
+  data m0 n l_1..l_n           set := createLabeledDataFromRange(ids 0..n-1, labels, m0)   (no folds built)
+  repart s_1..s_m              set.repartition(sizes)                    } the incoming batch layout of the next
+  splitat e w                  tail := splitAtElement(set, e)            } `again` is arbitrary
+  splice b w                   tail := set.splice(b)      w: 0 keep head, 1 keep tail, 2 set.append(tail), 3 tail.append(set)
       fn: 0 indexed (idx_j = (a*j+b) mod k)   1 fully (order_j = (j+a) mod n, part_j = (a*j+b) mod k)
           2 iid  3 samesize  4 balanced  5 batch     (2..5 need the observation)
 
@@ -146,6 +150,28 @@ def run (cfg : Cfg) (st : St) (op : String) (a : List Nat) (obs : Option (List N
   | "new", [] => pure ("", {})
   | "wprobe", [] => pure ("", st)
   | "debug", [] => pure ("", st)
+  -- incoming batch layout of the dataset variable
+  | "data", m0 :: n :: labels => do
+    require (labels.length = n)
+    let set ← mk m0 labels
+    pure (s!"DS{showDS set}", { st with set := some set })
+  | "repart", sizes => do
+    let set ← ofOpt st.set
+    require (set.numberOfElements > 0 && sizes.length > 0)
+    let set ← set.repartitionByLoop sizes
+    pure (s!"DS{showDS set}", { st with set := some set })
+  | "splitat", [e, w] => do
+    let set ← ofOpt st.set
+    require (0 < e && e < set.numberOfElements && w ≤ 3 && set.inputs.nonEmptyBatches)
+    let (hd, tl) ← set.splitAtElement e
+    let set := if w = 0 then hd else if w = 1 then tl else if w = 2 then hd.append tl else tl.append hd
+    pure (s!"DS{showDS set}", { st with set := some set })
+  | "splice", [b, w] => do
+    let set ← ofOpt st.set
+    require (0 < b && b < set.numberOfBatches && w ≤ 3 && set.numberOfElements > 0 && set.inputs.nonEmptyBatches)
+    let (hd, tl) ← set.splice b
+    let set := if w = 0 then hd else if w = 1 then tl else if w = 2 then hd.append tl else tl.append hd
+    pure (s!"DS{showDS set}", { st with set := some set })
   | "show", [] => do pure (← showFolds (← cur), st)
   | "prev", [] => match st.prev with
     | some f => do pure (← showFolds f, st)
